@@ -43,3 +43,52 @@ package vortex
 //@ ensures[counts] isnil(result) ==> len(proof.OpenedColumns) == len(input.SelectedColumns) && len(proof.MerkleProofOpenedColumns) == len(input.SelectedColumns)
 //@ modifies nothing
 //@ end
+
+// The Reed-Solomon membership test runs the inverse transform on each of the four base-field coordinates of the
+// extension-field codeword in turn. Acceptance-implies-check: true is returned only if, for every coordinate k, the
+// vector handed to the k-th inverse transform (on the second domain of the parameters) is that coordinate of the
+// codeword, entry by entry over the whole codeword length, and the zero test was then made on every entry
+// NbColumns .. SizeCodeWord-1 of the transformed vector. The transforms and the bit reversal are opaque calls that
+// overwrite their vector argument with arbitrary values (what they compute is outside this contract: C10).
+
+//@ func Params.IsReedSolomonCodewords
+//@ layer ring koalabear.Element
+//@ option struct-slices
+//@ option opaque-calls
+//@ option opaque-writes FFTInverse:1 BitReverse:0
+//@ option inline-callees SizeCodeWord
+//@ option nomerge
+//@ requires 0 <= p.NbColumns && p.NbColumns <= 1073741824 && 0 <= p.ReedSolomonInvRate && p.ReedSolomonInvRate <= 1048576
+//@ requires len(codeword) >= p.NbColumns * p.ReedSolomonInvRate
+//@ ghost stage = 0
+//@ loop 0
+//@ + invariant[load-0] -1 <= rangeindex && rangeindex < len(coeffs) && len(coeffs) == p.NbColumns * p.ReedSolomonInvRate && stage == 0 && forall(j, 0, rangeindex+1, coeffs[j] == codeword[j].B0.A0)
+//@ cut before call FFTInverse #1
+//@ + ghost stage = 1
+//@ + invariant[coordinate-0] same(callarg0, p.Domains[1]) && len(callarg1) == p.NbColumns * p.ReedSolomonInvRate && forall(j, 0, p.NbColumns * p.ReedSolomonInvRate, callarg1[j] == codeword[j].B0.A0)
+//@ loop 1
+//@ + invariant[tail-0] p.NbColumns <= i && len(coeffs) == p.NbColumns * p.ReedSolomonInvRate && stage == 1 && forall(j, p.NbColumns, i, iszero(coeffs[j]))
+//@ loop 2
+//@ + invariant[load-1] -1 <= rangeindex && rangeindex < len(coeffs) && len(coeffs) == p.NbColumns * p.ReedSolomonInvRate && stage == 1 && forall(j, 0, rangeindex+1, coeffs[j] == codeword[j].B0.A1) && (rangeindex == -1 ==> forall(j, p.NbColumns, p.NbColumns * p.ReedSolomonInvRate, iszero(coeffs[j])))
+//@ cut before call FFTInverse #2
+//@ + ghost stage = 2
+//@ + invariant[coordinate-1] same(callarg0, p.Domains[1]) && len(callarg1) == p.NbColumns * p.ReedSolomonInvRate && forall(j, 0, p.NbColumns * p.ReedSolomonInvRate, callarg1[j] == codeword[j].B0.A1)
+//@ loop 3
+//@ + invariant[tail-1] p.NbColumns <= i && len(coeffs) == p.NbColumns * p.ReedSolomonInvRate && stage == 2 && forall(j, p.NbColumns, i, iszero(coeffs[j]))
+//@ loop 4
+//@ + invariant[load-2] -1 <= rangeindex && rangeindex < len(coeffs) && len(coeffs) == p.NbColumns * p.ReedSolomonInvRate && stage == 2 && forall(j, 0, rangeindex+1, coeffs[j] == codeword[j].B1.A0) && (rangeindex == -1 ==> forall(j, p.NbColumns, p.NbColumns * p.ReedSolomonInvRate, iszero(coeffs[j])))
+//@ cut before call FFTInverse #3
+//@ + ghost stage = 3
+//@ + invariant[coordinate-2] same(callarg0, p.Domains[1]) && len(callarg1) == p.NbColumns * p.ReedSolomonInvRate && forall(j, 0, p.NbColumns * p.ReedSolomonInvRate, callarg1[j] == codeword[j].B1.A0)
+//@ loop 5
+//@ + invariant[tail-2] p.NbColumns <= i && len(coeffs) == p.NbColumns * p.ReedSolomonInvRate && stage == 3 && forall(j, p.NbColumns, i, iszero(coeffs[j]))
+//@ loop 6
+//@ + invariant[load-3] -1 <= rangeindex && rangeindex < len(coeffs) && len(coeffs) == p.NbColumns * p.ReedSolomonInvRate && stage == 3 && forall(j, 0, rangeindex+1, coeffs[j] == codeword[j].B1.A1) && (rangeindex == -1 ==> forall(j, p.NbColumns, p.NbColumns * p.ReedSolomonInvRate, iszero(coeffs[j])))
+//@ cut before call FFTInverse #4
+//@ + ghost stage = 4
+//@ + invariant[coordinate-3] same(callarg0, p.Domains[1]) && len(callarg1) == p.NbColumns * p.ReedSolomonInvRate && forall(j, 0, p.NbColumns * p.ReedSolomonInvRate, callarg1[j] == codeword[j].B1.A1)
+//@ loop 7
+//@ + invariant[tail-3] p.NbColumns <= i && len(coeffs) == p.NbColumns * p.ReedSolomonInvRate && stage == 4 && forall(j, p.NbColumns, i, iszero(coeffs[j]))
+//@ ensures[all-coordinates] result ==> stage == 4 && forall(j, p.NbColumns, p.NbColumns * p.ReedSolomonInvRate, iszero(coeffs[j]))
+//@ modifies nothing
+//@ end
